@@ -55,6 +55,7 @@ fn main() {
             "C12" => props::c12::replay(case),
             "C13" => props::c13::replay(case),
             "C14" => props::c14::replay(case),
+            "C15" => props::c15::replay(case),
             "C16" => props::c16::replay(case),
             "C18" => props::c18::replay(case),
             _ => {
@@ -72,6 +73,7 @@ fn main() {
         "C12" => props::c12::run(tier),
         "C13" => props::c13::run(tier),
         "C14" => props::c14::run(tier),
+        "C15" => props::c15::run(tier),
         "C16" => props::c16::run(tier),
         "C18" => props::c18::run(tier),
         _ => {
